@@ -1491,6 +1491,10 @@ def run_probe(exe, lines, env=None, timeout=600):
 
 def check_C05(ctx):
     lean_check(ctx)
+    # ---- the translator: the comparator functions rendered from the current sources into Lean (every conversion and every arithmetic
+    # operation of the clang AST an explicit `wrap`); Lean proves each equal to the model function the C05 theorems are about ----
+    import comparators as cmptr
+    generated_obligations(ctx, cmptr.render, "Cgreen.Gen", None, "the comparator functions of src/constraint.c and src/string_comparison.c rendered into Lean")
     rng = random.Random(ctx.seed * 1000 + 5)
     impl = build_impl(ctx, asan=True)
     exe_c = compile_harness(ctx, impl, "cmp_probe_c", ["cmp_probe.c"], out="cmp_probe_c")
